@@ -240,6 +240,14 @@ def run(case):
             classes.append("relative-255")
     if m.edns >= 0:
         classes.append("edns")
+    for sec in case["sections"]:
+        cov = {}
+        for rs in sec:
+            if rs["type"] in ("RRSIG", "SIG") and rs["rdatas"]:
+                cov.setdefault((tuple(l.lower() for l in G.unhexl(rs["name"])), rs["type"]), set()).add(rs["rdatas"][0][:4])
+        for (_, t), c in cov.items():
+            if len(c) >= 2:
+                classes.append("same-owner-two-covers:" + t)
     classes.append("opcode:%d" % int(m.opcode()))
     nontrivial = (npointers > 0 and nonempty >= 2) or upd or ext or len(w) > 0x4000
     return {"nontrivial": nontrivial, "classes": classes}
@@ -249,6 +257,7 @@ def parts(tier):
     return [
         Part("messages", run, strategy=MG.message(), n={"quick": 5000, "thorough": 300000},
              require={"pointer": 1000, "extended-rcode": 100, "update-any-none": 100, "size>0x4000": 20,
-                      "origin": 300, "relative-255": 10, "update-class-not-IN": 50, "padded": 300, "edns": 1000, "opcode:5": 200, "opcode:4": 100},
+                      "origin": 300, "relative-255": 10, "update-class-not-IN": 50, "padded": 300, "edns": 1000, "opcode:5": 200, "opcode:4": 100,
+                      "same-owner-two-covers:RRSIG": 40, "same-owner-two-covers:SIG": 40},
              shards={"quick": 16, "thorough": 16}),
     ]
